@@ -505,11 +505,13 @@ def _deg(e, scale, lin):
         name = e.func.__name__
         ds = [_deg(a, scale, lin) for a in e.args]
         if name in lin:
-            # degree of the first (data) argument; the remaining arguments must be scale invariant
-            for d in ds[1:]:
+            # the first n data arguments share the result's degree (n = 1 unless ``lin`` is a mapping that
+            # says otherwise); the remaining arguments must be scale invariant
+            ndata = lin[name] if isinstance(lin, dict) else 1
+            for d in ds[ndata:]:
                 if d is None or (d is not ANY and sp.simplify(d) != 0):
                     return None
-            return ds[0] if ds else sp.Integer(0)
+            return _same(ds[:ndata]) if ds else sp.Integer(0)
         if any(d is None for d in ds):
             return None
         if all(d is ANY or sp.simplify(d) == 0 for d in ds):
